@@ -9,7 +9,7 @@ import random
 
 from harness import core
 from harness.framework import Outcome
-from harness.gen import SchemaGen, ValueGen
+from harness.gen import SchemaGen, ValueGen, families
 
 ID = "C01"
 TIE_MODULES = ["StathamModel.Tie"]
@@ -68,11 +68,12 @@ def check_case(drv, schema, values, out, stats, want_tree=True):
         out.disagreements.append({"what": "parse outcome", "impl": "ok", "model": rep.get("kind"), **case0})
         return
     out.traces_validated += 1
+    tree_ok = True
     if want_tree:
         tree = core.dump_elem(el)
         if tree != rep["elem"]:
             out.disagreements.append({"what": "element tree", "impl": tree, "model": rep["elem"], **case0})
-            return
+            tree_ok = False
     spec = drv.ask({"op": "spec", "schema": enc_schema, "args": enc_args, "tables": tables})
     if "error" in spec:
         out.notes.append("spec op failed: " + spec["error"][:200])
@@ -86,12 +87,16 @@ def check_case(drv, schema, values, out, stats, want_tree=True):
         case = {"schema": schema, "value": v}
         out.note_case({"schema": schema, "value": v}, nontrivial(schema, v))
         stats["verdict-" + real["r"]] = stats.get("verdict-" + real["r"], 0) + 1
+        agree = tree_ok
         if model["r"] == "crash":
             stats["model-outside-arithmetic-domain"] = stats.get("model-outside-arithmetic-domain", 0) + 1
         elif real != model:
-            out.disagreements.append({"what": "call result", "impl": real, "model": model, **case})
+            agree = False
+            if tree_ok:
+                out.disagreements.append({"what": "call result", "impl": real, "model": model, **case})
+        if isinstance(v, core.NotPassed):
             continue
-        if isinstance(v, core.NotPassed) or real["r"] not in ("ok", "reject"):
+        if real["r"] not in ("ok", "reject"):
             if real["r"] == "typeError":
                 out.failures.append({"case": case, "what": "TypeError instead of ValidationError: " + real.get("msg", ""), "finding": None})
             continue
@@ -100,7 +105,8 @@ def check_case(drv, schema, values, out, stats, want_tree=True):
         got = real["r"] == "ok"
         allowed = {spec["impl_leniency"][i], spec["strict"][i], spec["lenient"][i]}
         if got not in allowed:
-            fid = classify(flags)
+            # known only if the model predicts the implementation here AND a listed hypothesis is violated
+            fid = classify(flags) if agree else None
             out.failures.append({"case": case, "what": f"implementation {'accepts' if got else 'rejects'}, Draft 6 says {'valid' if spec['strict'][i] else 'invalid'}",
                                  "finding": fid, "flags": flags})
             stats["oracle-fail-" + str(fid)] = stats.get("oracle-fail-" + str(fid), 0) + 1
@@ -133,6 +139,10 @@ def run(ctx, scale=1.0):
     try:
         for case in corpus_cases():
             check_case(drv, case["schema"], case["values"], out, stats)
+        for schema, values in families(rng):
+            kw_hist(schema, hist)
+            check_case(drv, schema, list(values) + [core.NP], out, stats)
+        stats["family-cases"] = out.evaluations
         sg, vg = SchemaGen(rng), ValueGen(rng)
         n = int(N_SCHEMAS[ctx["tier"]] * scale)
         for i in range(n):
